@@ -222,7 +222,10 @@ def pat(p):
         return "(%s)" % ", ".join(pat(x) for x in p["pats"])
     if k == "Lit":
         e = p["e"]
-        return repr(e.get("v")) if e.get("k") == "Lit" else short(e.get("path", "?"))
+        if e.get("k") == "Lit":
+            v = e.get("v")
+            return repr(-v if e.get("neg") and isinstance(v, int) else v)
+        return short(e.get("path", "?"))
     if k == "Range":
         return "%s..=%s" % ((p.get("lo") or {}).get("v"), (p.get("hi") or {}).get("v"))
     if k == "Struct":
